@@ -11,7 +11,7 @@ git worktree remove --force $WT 2>/dev/null
 git worktree add --detach $WT HEAD >/dev/null 2>&1 || exit 9
 cp /repo/Cargo.lock $WT/
 cd /verif
-seeds=$(for s in ${@:-$(ls -d /verif/seeded/*/)}; do realpath $s; done)
+seeds=$(for s in ${@:-$(ls -d /verif/seeded/C*/)}; do realpath $s; done)
 cd /repo
 for d in $seeds; do
   d=${d%/}
